@@ -88,7 +88,7 @@ class B:
             ctx.check(f"wf core/state distance mode [{tag}]", o1["_distance_mode"].idx == e.heap[self.sref.oid]["_current_distance_mode"].idx, e, ["C01", "C07", "C05"], "inv")
             ctx.check(f"wf tool flags consistent [{tag}]", wf_tool(w, e.heap, self.sref), e, ["C07", "C02", "C06"], "inv", known.get("wf_tool"))
             ctx.check(f"wf tracked positions finite [{tag}]", AND(*[OR(c.none, c.inner.finite) for c in list(o1["_current_axes"].items()) + list(e.heap[self.sref.oid]["_current_axes"].items())]), e, ["C01", "C03"], "inv")
-            ctx.check(f"wf params shared [{tag}]", z3.BoolVal(e.heap[self.sref.oid]["_current_params"].oid == o1["_current_params"].oid), e, ["C07"], "inv")
+            ctx.check(f"wf params shared [{tag}]", z3.BoolVal(e.heap[self.sref.oid]["_current_params"].oid == o1["_current_params"].oid), e, ["C07", "C20"], "inv")
             # ---- C02 safety and C03 bounds on every emitted block, in the modal / machine state it is emitted in
             ms, M = self.ms0, self.M0
             for i, (g, s) in enumerate(blocks):
